@@ -755,7 +755,9 @@ func init() {
 	}))
 }
 
-func le32(v uint32) string { return string([]byte{byte(v), byte(v >> 8), byte(v >> 16), byte(v >> 24)}) }
+func le32(v uint32) string {
+	return string([]byte{byte(v), byte(v >> 8), byte(v >> 16), byte(v >> 24)})
+}
 func le64(v uint64) string {
 	b := make([]byte, 8)
 	for i := range b {
